@@ -131,12 +131,29 @@ func ruleParseBinOp(r *Run) {
 		return
 	}
 	// the two peekBinOp calls: outer (first in block order) and inner
+	// (the look-ahead loop may live in a helper of parseBinOp; the walkers below follow helpers)
 	var peeks []*ssa.Call
-	for _, c := range callsIn(fn) {
-		if call, ok := c.(*ssa.Call); ok && callIs(call, lq, "(*parser).peekBinOp") {
-			peeks = append(peeks, call)
+	for _, gf := range funcGroup(fn) {
+		for _, c := range callsIn(gf) {
+			if call, ok := c.(*ssa.Call); ok && callIs(call, lq, "(*parser).peekBinOp") {
+				peeks = append(peeks, call)
+			}
 		}
 	}
+	// only helpers that take part in the climbing (peek at an operator or recurse) are followed;
+	// everything else (Precedence(), IsLogic(), ...) is evaluated at value level as before
+	follow := map[*ssa.Function]bool{}
+	for _, gf := range funcGroup(fn) {
+		if gf == fn || gf.Parent() != nil {
+			continue
+		}
+		for _, c := range callsIn(gf) {
+			if callIs(c, lq, "(*parser).peekBinOp") || staticCallee(c) == fn {
+				follow[gf] = true
+			}
+		}
+	}
+	inl := func(callee *ssa.Function, depth int) bool { return follow[callee] && depth <= 2 }
 	if len(peeks) != 2 {
 		r.Ob("FE-ORD", "logql.(*parser).parseBinOp", "precedence climbing shape").Undecide(r.pos(fn.Pos()), "expected two peekBinOp calls (outer operator, look-ahead), found %d: the parser is not the precedence-climbing algorithm this rule understands", len(peeks))
 		return
@@ -150,8 +167,16 @@ func ruleParseBinOp(r *Run) {
 		return nil
 	}
 	outer, inner := peeks[0], peeks[1]
-	if !outer.Block().Dominates(inner.Block()) {
+	switch {
+	case outer.Parent() == fn && inner.Parent() == fn:
+		if !outer.Block().Dominates(inner.Block()) {
+			outer, inner = inner, outer
+		}
+	case inner.Parent() == fn:
 		outer, inner = inner, outer
+	case outer.Parent() != fn:
+		r.Ob("FE-ORD", "logql.(*parser).parseBinOp", "precedence climbing shape").Undecide(r.pos(fn.Pos()), "parseBinOp itself does not peek at the operator")
+		return
 	}
 	opV, okV := ex(outer, 0), ex(outer, 1)
 	ropV, rokV := ex(inner, 0), ex(inner, 1)
@@ -174,7 +199,7 @@ func ruleParseBinOp(r *Run) {
 	for _, op := range ops {
 		for d := int64(-1); d <= 1; d++ {
 			assume := map[ssa.Value]constant.Value{opV: consts[op], okV: constant.MakeBool(true), minP: constant.MakeInt64(prec[op] + d)}
-			w := &feWalker{Fn: fn, Assume: assume, MaxPath: 3000}
+			w := &feWalker{Fn: fn, Assume: assume, MaxPath: 3000, Inline: inl}
 			stops := true
 			for _, e := range w.Run() {
 				// did the path consume the operator (call p.next) ?
@@ -192,7 +217,7 @@ func ruleParseBinOp(r *Run) {
 		}
 	}
 	{
-		w := &feWalker{Fn: fn, Assume: map[ssa.Value]constant.Value{okV: constant.MakeBool(false)}, MaxPath: 3000}
+		w := &feWalker{Fn: fn, Assume: map[ssa.Value]constant.Value{okV: constant.MakeBool(false)}, MaxPath: 3000, Inline: inl}
 		for _, e := range w.Run() {
 			for _, c := range e.State.calls {
 				if callIs(c.Call, lq, "(*parser).next") {
@@ -221,7 +246,7 @@ func ruleParseBinOp(r *Run) {
 	decide := func(op, rop string) (decision, bool) {
 		assume := map[ssa.Value]constant.Value{opV: consts[op], okV: constant.MakeBool(true), minP: constant.MakeInt64(-100),
 			ropV: consts[rop], rokV: constant.MakeBool(true)}
-		w := &feWalker{Fn: fn, Assume: assume, MaxPath: 6000}
+		w := &feWalker{Fn: fn, Assume: assume, MaxPath: 6000, Inline: inl}
 		var d decision
 		seen := false
 		for _, e := range w.Run() {
